@@ -28,7 +28,9 @@ type c18Edit struct {
 	// omit-list (the file keeps only its enable line: no address is listed) | omit-enable (only the list: the
 	// switch is at its default, off) | empty (an empty file) | edit-and-rollback (copy aside, toggle one address,
 	// move the copy back) | broken-then-fixed (the file is saved with a syntax error, then corrected, with one
-	// address toggled) | moved-aside-then-new (the file is renamed away, then a new one is moved into place)
+	// address toggled) | moved-aside-then-new (the file is renamed away, then a new one is moved into place) |
+	// junk-entry (an entry that is no address literal - a host name, a CIDR, a typo - is added somewhere in the
+	// list while one address is toggled: it admits nobody and must not keep the other entries from applying)
 	Kind   string `json:"kind"`
 	IP     int    `json:"ip"`   // 1..8 -> 127.0.0.<ip>
 	Rename bool   `json:"rename"`
@@ -41,6 +43,9 @@ type c18Case struct {
 	Edits  []c18Edit `json:"edits"`
 }
 
+// c18LongHook replays long-history cases (c18_long_test.go).
+var c18LongHook func(raw json.RawMessage) ([]Discrepancy, bool)
+
 func c18Gen(t *rapid.T) c18Case {
 	c := c18Case{Enable: rapid.IntRange(0, 3).Draw(t, "enable") > 0}
 	c.IPs = rapid.SliceOfNDistinct(rapid.IntRange(1, 8), 0, 5, rapid.ID[int]).Draw(t, "ips")
@@ -52,7 +57,7 @@ func c18Gen(t *rapid.T) c18Case {
 	n := rapid.IntRange(1, 6).Draw(t, "nedits")
 	for i := 0; i < n; i++ {
 		c.Edits = append(c.Edits, c18Edit{
-			Kind:   rapid.SampledFrom([]string{"add", "add", "remove", "remove", "remove", "enable", "disable", "rewrite", "dup", "dup", "shuffle", "backup", "rollback", "rollback", "omit-list", "omit-enable", "empty", "edit-and-rollback", "broken-then-fixed", "moved-aside-then-new"}).Draw(t, "kind"),
+			Kind:   rapid.SampledFrom([]string{"add", "add", "remove", "remove", "remove", "enable", "disable", "rewrite", "dup", "dup", "shuffle", "backup", "rollback", "rollback", "omit-list", "omit-enable", "empty", "edit-and-rollback", "broken-then-fixed", "moved-aside-then-new", "junk-entry", "junk-entry"}).Draw(t, "kind"),
 			IP:     rapid.IntRange(1, 8).Draw(t, "ip"),
 			Rename: rapid.IntRange(0, 2).Draw(t, "rename") == 0,
 		})
@@ -197,8 +202,15 @@ func c18Exec(c *c18Case) ([]Discrepancy, []string) {
 	evidence.For("C18").Add("proxy_starts", 1)
 	file := filepath.Join(f.Proxy.ConfDir(), "authip.yaml")
 	layout := "" // how the next write lays the file out
+	var junk []string // entries that are no address literals, and where they sit in the list
+	var junkAt []int
 	write := func(rename bool) error {
-		content := []byte(sut.AuthipYAML(enable, c18List(set, dups, reverse)))
+		list := c18List(set, dups, reverse)
+		for i, j := range junk {
+			at := junkAt[i] % (len(list) + 1)
+			list = append(list[:at], append([]string{j}, list[at:]...)...)
+		}
+		content := []byte(sut.AuthipYAML(enable, list))
 		switch layout {
 		case "omit-list":
 			content = []byte(fmt.Sprintf("enable: %v\n", enable))
@@ -331,8 +343,18 @@ func c18Exec(c *c18Case) ([]Discrepancy, []string) {
 			enable = true
 		case "disable":
 			enable = false
+		case "junk-entry":
+			junk = append(junk, []string{"localhost", "127.0.0.300", "10.0.0.0/8", "example.org", "127.0.0", "fe80::1%lo"}[(e.IP+len(junk))%6])
+			junkAt = append(junkAt, e.IP)
+			if set[e.IP] {
+				delete(set, e.IP)
+				delete(dups, e.IP)
+			} else {
+				set[e.IP] = true
+			}
 		case "omit-list":
 			layout = e.Kind
+			junk, junkAt = nil, nil
 			set, dups = map[int]bool{}, map[int]int{}
 		case "omit-enable":
 			layout = e.Kind
@@ -425,7 +447,7 @@ func c18Classify(c *c18Case) (bool, []string) {
 	var cls []string
 	for _, e := range c.Edits {
 		cls = append(cls, "edit-"+e.Kind)
-		if e.Kind == "remove" || e.Rename || e.Kind == "rollback" || e.Kind == "omit-list" || e.Kind == "omit-enable" || e.Kind == "empty" || e.Kind == "edit-and-rollback" || e.Kind == "broken-then-fixed" || e.Kind == "moved-aside-then-new" {
+		if e.Kind == "remove" || e.Rename || e.Kind == "rollback" || e.Kind == "omit-list" || e.Kind == "omit-enable" || e.Kind == "empty" || e.Kind == "edit-and-rollback" || e.Kind == "broken-then-fixed" || e.Kind == "moved-aside-then-new" || e.Kind == "junk-entry" {
 			nt = true
 		}
 		if e.Rename {
@@ -440,6 +462,11 @@ func c18Classify(c *c18Case) (bool, []string) {
 
 func init() {
 	registerReplay("C18", func(raw json.RawMessage) ([]Discrepancy, error) {
+		if c18LongHook != nil {
+			if ds, ok := c18LongHook(raw); ok {
+				return ds, nil
+			}
+		}
 		var c c18Case
 		if err := json.Unmarshal(raw, &c); err != nil {
 			return nil, err
